@@ -1,492 +1,6 @@
-(** * SrcEquiv: the Gallina definitions regenerated from the Rust source by tools/rs2coq
-    (gen/Src.v) are equal to the hand-written model functions.
-
-    Every theorem [rs_<name>_eq] states [rs_<name> args = <model function> args] for all build
-    modes [b]; where the translation is more literal than the model (casts that the model elides,
-    constant expressions the model folds) the equality holds under explicit side conditions:
-    the integer arguments lie in the range of their Rust type ([u64_ok], [i32_ok], ...), the
-    format constants satisfy [fmt_ok] (true of F32 and F64), table entries are u64
-    ([tables_ok], true of TABLES) and the Bellerophon parameters are i32 ([btables_ok], true of
-    BTABLES). *)
-From Coq Require Import ZArith List Bool Lia Znumtheory.
-From Coq Require Import ZifyBool.
-From ML Require Import base.RustSem model.Fmt model.FloatOps model.Mask model.Num model.Number
-  model.Rounding model.Lemire model.Bellerophon gen.Consts gen.Tables gen.BTables.
-From ML Require Import gen.Src.
-Import ListNotations.
-Ltac Zify.zify_post_hook ::= Z.div_mod_to_equations.
-Open Scope Z_scope.
-Open Scope rust_scope.
-
-(** ** Monad laws and stepping tactics *)
-Lemma bind_ret_r {A} (x : outcome A) : bind x (fun a => Ok a) = x.
-Proof. destruct x; reflexivity. Qed.
-
-Lemma bind_assoc {A B C} (x : outcome A) (g : A -> outcome B) (h : B -> outcome C) :
-  bind (bind x g) h = bind x (fun a => bind (g a) h).
-Proof. destruct x; reflexivity. Qed.
-
-Lemma bind_ext2 {A B} (m m' : outcome A) (f g : A -> outcome B) :
-  m = m' -> (forall a, f a = g a) -> bind m f = bind m' g.
-Proof. intros -> H. destruct m'; cbn; auto. Qed.
-
-Lemma bind_ext2d {A B} (m m' : outcome A) (f g : A -> outcome B) :
-  m = m' -> (forall a, m' = Ok a -> f a = g a) -> bind m f = bind m' g.
-Proof. intros -> H. destruct m'; cbn; auto. Qed.
-
-Lemma bind_if {A B} (c : bool) (x y : outcome A) (f : A -> outcome B) :
-  bind (if c then x else y) f = if c then bind x f else bind y f.
-Proof. destruct c; reflexivity. Qed.
-
-Lemma bind_ext_tail_r {A} (m m' : outcome A) (f : A -> outcome A) :
-  m = m' -> (forall a, f a = Ok a) -> bind m f = m'.
-Proof. intros -> H. destruct m'; cbn; auto. Qed.
-Lemma bind_ext_tail_l {A} (m m' : outcome A) (g : A -> outcome A) :
-  m = m' -> (forall a, Ok a = g a) -> m = bind m' g.
-Proof. intros -> H. destruct m'; cbn; auto. Qed.
-
-(** an operation executed twice gives the same value twice *)
-Lemma bind_dup {A B} (m : outcome A) (f : A -> A -> outcome B) :
-  bind m (fun a => bind m (fun a' => f a a')) = bind m (fun a => f a a).
-Proof. destruct m; reflexivity. Qed.
-
-Lemma debug_assert_guard b c :
-  (if dbg b then (debug_assert b c ;;; Ok tt) else Ok tt) = debug_assert b c.
-Proof. unfold debug_assert. destruct (dbg b), c; reflexivity. Qed.
-
-Ltac record_norm :=
-  cbn beta zeta iota delta [mant exp nexp nmant many fst snd].
-
-(** normalise the head of the left-hand side *)
-Ltac head_l :=
-  lazymatch goal with
-  | |- bind (Ok ?a) ?f = _ => change (bind (Ok a) f) with (f a); cbv beta
-  | |- bind (bind ?m ?g) ?f = _ => rewrite (bind_assoc m g f)
-  end.
-Ltac head_r :=
-  lazymatch goal with
-  | |- _ = bind (Ok ?a) ?f => change (bind (Ok a) f) with (f a); cbv beta
-  | |- _ = bind (bind ?m ?g) ?f => rewrite (bind_assoc m g f)
-  end.
-Ltac heads := repeat (record_norm; first [head_l | head_r]); record_norm.
-
-(** one step: same first operation on both sides *)
-Ltac step_with tac :=
-  heads;
-  lazymatch goal with
-  | |- bind ?m ?f = bind ?m' ?g => apply bind_ext2d; [ tac | intros ? ? ]
-  | |- bind ?m ?f = ?m' => apply bind_ext_tail_r; [ tac | intro ]
-  | |- ?m = bind ?m' ?g => apply bind_ext_tail_l; [ tac | intro ]
-  end.
-Ltac side0 := first [ reflexivity | solve [ autorewrite with rs_eq; reflexivity ] | solve [ auto ] ].
-Ltac step0 := step_with ltac:(side0).
-Ltac case_head :=
-  heads;
-  match goal with
-  | |- bind (if ?c then _ else _) _ = _ => destruct c eqn:?
-  | |- _ = bind (if ?c then _ else _) _ => destruct c eqn:?
-  | |- (if ?c then _ else _) = _ => destruct c eqn:?
-  | |- _ = (if ?c then _ else _) => destruct c eqn:?
-  | |- (match ?c with Some _ => _ | None => _ end) = _ => destruct c eqn:?
-  | |- context [match ?a with pair _ _ => _ end] => is_var a; destruct a
-  end.
-Ltac auto_eq0 := repeat first [ step0 | case_head ]; heads; try reflexivity.
-(** a sub-computation that is an [if] on both sides *)
-Ltac side_if :=
-  match goal with
-  | |- (if ?c then _ else _) = (if ?c then _ else _) => destruct c eqn:?
-  end; solve [ auto_eq0 ].
-Ltac side := first [ side0 | side_if ].
-Ltac step := step_with ltac:(side).
-Ltac steps := repeat step; heads; try reflexivity.
-Ltac auto_eq := repeat first [ step | case_head ]; heads; try reflexivity.
-
-(** ** Ranges *)
-Definition u64_ok (x : Z) : Prop := 0 <= x < 2 ^ 64.
-Definition u32_ok (x : Z) : Prop := 0 <= x < 2 ^ 32.
-Definition i32_ok (x : Z) : Prop := - 2 ^ 31 <= x < 2 ^ 31.
-Definition usize_ok (x : Z) : Prop := 0 <= x < 2 ^ 64.
-
-Lemma uop_ok b n r : in_u n r = true -> uop b n r = Ok r.
-Proof. unfold uop. intros ->. reflexivity. Qed.
-Lemma sop_ok b n r : in_s n r = true -> sop b n r = Ok r.
-Proof. unfold sop. intros ->. reflexivity. Qed.
-Lemma shr_u_ok b n x k : (0 <=? k) && (k <? n) = true -> shr_u b n x k = Ok (x / 2 ^ k).
-Proof. unfold shr_u. intros ->. reflexivity. Qed.
-Lemma shr_s_ok b n x k : (0 <=? k) && (k <? n) = true -> shr_s b n x k = Ok (x / 2 ^ k).
-Proof. unfold shr_s. intros ->. reflexivity. Qed.
-Lemma shl_u_ok b n x k : (0 <=? k) && (k <? n) = true -> shl_u b n x k = Ok (wrapu n (x * 2 ^ k)).
-Proof. unfold shl_u. intros ->. reflexivity. Qed.
-
-Lemma wrapu_small n x : 0 <= x < 2 ^ n -> wrapu n x = x.
-Proof. intros. unfold wrapu. apply Z.mod_small. assumption. Qed.
-Lemma wraps_small n x : 0 < n -> - 2 ^ (n - 1) <= x < 2 ^ (n - 1) -> wraps n x = x.
-Proof.
-  intros Hn H. unfold wraps.
-  replace (2 ^ n) with (2 * 2 ^ (n - 1)).
-  - rewrite Z.mod_small; lia.
-  - rewrite <- Z.pow_succ_r by lia. f_equal. lia.
-Qed.
-Lemma as_i32_small x : i32_ok x -> as_i32 x = x.
-Proof. intros. apply wraps_small; [lia|exact H]. Qed.
-Lemma as_u64_small x : u64_ok x -> as_u64 x = x.
-Proof. intros. apply wrapu_small. exact H. Qed.
-Lemma as_usize_small x : u64_ok x -> as_usize x = x.
-Proof. intros. apply wrapu_small. exact H. Qed.
-
-(** ** mask.rs *)
-Theorem rs_nth_bit_eq : forall b n, rs_nth_bit b n = nth_bit b n.
-Proof. intros. unfold rs_nth_bit, nth_bit. steps. Qed.
-#[export] Hint Rewrite rs_nth_bit_eq : rs_eq.
-
-Theorem rs_lower_n_mask_eq : forall b n, rs_lower_n_mask b n = lower_n_mask b n.
-Proof.
-  intros. unfold rs_lower_n_mask, lower_n_mask. step.
-  destruct (n =? 64); steps.
-Qed.
-#[export] Hint Rewrite rs_lower_n_mask_eq : rs_eq.
-
-Theorem rs_lower_n_halfway_eq : forall b n, rs_lower_n_halfway b n = lower_n_halfway b n.
-Proof.
-  intros. unfold rs_lower_n_halfway, lower_n_halfway. step.
-  destruct (n =? 0); steps.
-Qed.
-#[export] Hint Rewrite rs_lower_n_halfway_eq : rs_eq.
-
-(** ** Range lemmas for the checked operators *)
-Lemma in_s_32 r : i32_ok r -> in_s 32 r = true.
-Proof. unfold i32_ok, in_s. change (2 ^ (32 - 1)) with (2 ^ 31). lia. Qed.
-Lemma in_s_64 r : - 2 ^ 63 <= r < 2 ^ 63 -> in_s 64 r = true.
-Proof. unfold in_s. change (2 ^ (64 - 1)) with (2 ^ 63). lia. Qed.
-Lemma in_u_n n r : 0 <= r < 2 ^ n -> in_u n r = true.
-Proof. unfold in_u. lia. Qed.
-
-Lemma i32_sub_ok b x y : i32_ok (x - y) -> i32_sub b x y = Ok (x - y).
-Proof. intros. apply sop_ok, in_s_32, H. Qed.
-Lemma i32_add_ok b x y : i32_ok (x + y) -> i32_add b x y = Ok (x + y).
-Proof. intros. apply sop_ok, in_s_32, H. Qed.
-Lemma i32_neg_ok b x : i32_ok (- x) -> i32_neg b x = Ok (- x).
-Proof. intros. apply sop_ok, in_s_32, H. Qed.
-Lemma i64_sub_ok b x y : - 2 ^ 63 <= x - y < 2 ^ 63 -> i64_sub b x y = Ok (x - y).
-Proof. intros. apply sop_ok, in_s_64, H. Qed.
-Lemma usize_add_ok b x y : u64_ok (x + y) -> usize_add b x y = Ok (x + y).
-Proof. intros. apply uop_ok, in_u_n, H. Qed.
-Lemma u64_shr_ok b x k : 0 <= k < 64 -> u64_shr b x k = Ok (x / 2 ^ k).
-Proof. intros. apply shr_u_ok. lia. Qed.
-Lemma u64_shl_ok b x k : 0 <= k < 64 -> u64_shl b x k = Ok (wrapu 64 (x * 2 ^ k)).
-Proof. intros. apply shl_u_ok. lia. Qed.
-Lemma i32_shr_ok b x k : 0 <= k < 32 -> i32_shr b x k = Ok (x / 2 ^ k).
-Proof. intros. apply shr_s_ok. lia. Qed.
-Lemma u32_add_ok b x y : u32_ok (x + y) -> u32_add b x y = Ok (x + y).
-Proof. intros. apply uop_ok, in_u_n, H. Qed.
-Lemma as_i64_small x : - 2 ^ 63 <= x < 2 ^ 63 -> as_i64 x = x.
-Proof. intros. apply wraps_small; [lia|exact H]. Qed.
-Lemma u64_shl_1 b k : 0 <= k < 64 -> u64_shl b 1 k = Ok (2 ^ k).
-Proof.
-  intros. rewrite u64_shl_ok by lia. rewrite Z.mul_1_l, wrapu_small; [reflexivity|].
-  split; [apply Z.pow_nonneg; lia | apply Z.pow_lt_mono_r; lia].
-Qed.
-Lemma u64_shl_2 b k : 0 <= k < 63 -> u64_shl b 2 k = Ok (2 * 2 ^ k).
-Proof.
-  intros. rewrite u64_shl_ok by lia. rewrite wrapu_small; [reflexivity|].
-  rewrite <- Z.pow_succ_r by lia.
-  split; [apply Z.pow_nonneg; lia | apply Z.pow_lt_mono_r; lia].
-Qed.
-
-Lemma pow2_31 : 2 ^ 31 = 2147483648. Proof. reflexivity. Qed.
-Lemma pow2_32 : 2 ^ 32 = 4294967296. Proof. reflexivity. Qed.
-Lemma pow2_63 : 2 ^ 63 = 9223372036854775808. Proof. reflexivity. Qed.
-Lemma pow2_64 : 2 ^ 64 = 18446744073709551616. Proof. reflexivity. Qed.
-Lemma pow2_128 : 2 ^ 128 = 340282366920938463463374607431768211456. Proof. reflexivity. Qed.
-
-(** the constants of a format that the translated code computes with: only MANTISSA_SIZE matters *)
-Definition fmt_ok (f : format) : Prop := 0 <= MANTISSA_SIZE f <= 61.
-Lemma fmt_ok_F32 : fmt_ok F32. Proof. unfold fmt_ok; cbn; lia. Qed.
-Lemma fmt_ok_F64 : fmt_ok F64. Proof. unfold fmt_ok; cbn; lia. Qed.
-
-Ltac rng :=
-  unfold fmt_ok, u64_ok, u32_ok, i32_ok, usize_ok in *;
-  rewrite ?pow2_31, ?pow2_32, ?pow2_63, ?pow2_64, ?pow2_128 in *; lia.
-
-(** turn checked operations whose result provably fits into [Ok] *)
-Ltac ok_ops :=
-  repeat match goal with
-  | |- context [i32_sub ?b ?x ?y] => rewrite (i32_sub_ok b x y) by rng
-  | |- context [i32_add ?b ?x ?y] => rewrite (i32_add_ok b x y) by rng
-  | |- context [i32_neg ?b ?x] => rewrite (i32_neg_ok b x) by rng
-  | |- context [i64_sub ?b ?x ?y] => rewrite (i64_sub_ok b x y) by rng
-  | |- context [usize_add ?b ?x ?y] => rewrite (usize_add_ok b x y) by rng
-  | |- context [u64_shr ?b ?x ?k] => rewrite (u64_shr_ok b x k) by rng
-  | |- context [u64_shl ?b 1 ?k] => rewrite (u64_shl_1 b k) by rng
-  | |- context [u64_shl ?b 2 ?k] => rewrite (u64_shl_2 b k) by rng
-  | |- context [u64_shl ?b ?x ?k] => rewrite (u64_shl_ok b x k) by rng
-  | |- context [u32_add ?b ?x ?y] => rewrite (u32_add_ok b x y) by rng
-  | |- context [as_i32 ?x] => rewrite (as_i32_small x) by rng
-  | |- context [as_i64 ?x] => rewrite (as_i64_small x) by rng
-  | |- context [as_u64 ?x] => rewrite (as_u64_small x) by rng
-  | |- context [bind (Ok ?a) ?f] => change (bind (Ok a) f) with (f a); cbv beta
-  | |- context [if dbg ?b then (debug_assert ?b ?c ;;; Ok tt) else Ok tt] => rewrite (debug_assert_guard b c)
-  | |- context [as_usize ?x] => rewrite (as_usize_small x) by rng
-  | H : ?m = Ok _ |- context [?m] => rewrite H
-  | |- context [i32_shr ?b ?x ?k] => rewrite (i32_shr_ok b x k) by rng
-  end.
-
-Ltac simp := heads; repeat (progress ok_ops; heads); change (2 ^ 1) with 2; cbn [andb negb].
-
-(** ** num.rs: default methods of [trait Float] *)
-Theorem rs_is_denormal_eq : forall f b x, rs_is_denormal f b x = Ok (is_denormal f x).
-Proof. reflexivity. Qed.
-#[export] Hint Rewrite rs_is_denormal_eq : rs_eq.
-
-Theorem rs_exponent_eq : forall f b x, rs_exponent f b x = float_exponent f b x.
-Proof. intros. unfold rs_exponent, float_exponent. rewrite rs_is_denormal_eq. auto_eq. Qed.
-#[export] Hint Rewrite rs_exponent_eq : rs_eq.
-
-Theorem rs_mantissa_eq : forall f b x, rs_mantissa f b x = float_mantissa f b x.
-Proof. intros. unfold rs_mantissa, float_mantissa. rewrite rs_is_denormal_eq. auto_eq. Qed.
-#[export] Hint Rewrite rs_mantissa_eq : rs_eq.
-
-(** ** extended_float.rs *)
-Theorem rs_extended_to_float_eq : forall f b x,
-  rs_extended_to_float f b x = extended_to_float f b x.
-Proof. intros. unfold rs_extended_to_float, extended_to_float. auto_eq. Qed.
-#[export] Hint Rewrite rs_extended_to_float_eq : rs_eq.
-
-(** ** rounding.rs *)
-Theorem rs_round_nearest_tie_even_eq : forall b fp shift cb,
-  rs_round_nearest_tie_even b fp shift cb = round_nearest_tie_even b fp shift cb.
-Proof. intros. unfold rs_round_nearest_tie_even, round_nearest_tie_even. auto_eq. Qed.
-#[export] Hint Rewrite rs_round_nearest_tie_even_eq : rs_eq.
-
-Theorem rs_round_down_eq : forall b fp shift, rs_round_down b fp shift = round_down b fp shift.
-Proof. intros. unfold rs_round_down, round_down. auto_eq. Qed.
-#[export] Hint Rewrite rs_round_down_eq : rs_eq.
-
-Theorem rs_round_eq : forall f b fp cb, fmt_ok f -> rs_round f b fp cb = round f b fp cb.
-Proof.
-  intros f b fp cb Hf. unfold rs_round, round. simp. step. case_head.
-  - rewrite H. auto_eq.
-  - auto_eq.
-Qed.
-
-(** [round] only applies its callback *)
-Lemma round_ext : forall f b fp cb1 cb2,
-  (forall x s, cb1 x s = cb2 x s) -> round f b fp cb1 = round f b fp cb2.
-Proof. intros f b fp cb1 cb2 H. unfold round. auto_eq. Qed.
-
-(** ** number.rs *)
-Theorem rs_is_fast_path_eq : forall f b n, rs_is_fast_path f b n = Ok (is_fast_path f n).
-Proof. reflexivity. Qed.
-
-Theorem rs_try_fast_path_eq : forall c T f b n,
-  rs_try_fast_path c T f b n = try_fast_path c T f b n.
-Proof.
-  intros. unfold rs_try_fast_path, try_fast_path. rewrite rs_is_fast_path_eq. auto_eq.
-Qed.
-
-(** ** lemire.rs *)
-Theorem rs_power_eq : forall b q, rs_power b q = power b q.
-Proof. intros. unfold rs_power, power. simp. auto_eq. Qed.
-#[export] Hint Rewrite rs_power_eq : rs_eq.
-
-Lemma lz64_range w : u64_ok w -> 0 <= lz64 w <= 64.
-Proof.
-  unfold u64_ok, lz64, bitlen. intros [H0 H1]. destruct (w <=? 0) eqn:E; [lia|].
-  assert (0 <= Z.log2 w) by apply Z.log2_nonneg.
-  assert (Z.log2 w < 64) by (apply Z.log2_lt_pow2; lia). lia.
-Qed.
-
-Lemma uop_range b n r a : 0 <= n -> uop b n r = Ok a -> 0 <= a < 2 ^ n.
-Proof.
-  unfold uop, in_u. intros Hn. destruct (_ && _) eqn:E.
-  - intros [= <-]. lia.
-  - destruct (ovf b); [discriminate|]. intros [= <-]. unfold wrapu.
-    apply Z.mod_pos_bound. apply Z.pow_pos_nonneg; lia.
-Qed.
-Lemma shl_u_range b n x k a : 0 <= n -> shl_u b n x k = Ok a -> 0 <= a < 2 ^ n.
-Proof.
-  unfold shl_u. intros Hn. assert (0 < 2 ^ n) by (apply Z.pow_pos_nonneg; lia).
-  destruct (_ && _); [|destruct (ovf b); [discriminate|]]; intros [= <-]; unfold wrapu;
-    apply Z.mod_pos_bound; assumption.
-Qed.
-Lemma u64_shl_range b x k a : u64_shl b x k = Ok a -> u64_ok a.
-Proof. apply shl_u_range. lia. Qed.
-Lemma u64_add_range b x y a : u64_add b x y = Ok a -> u64_ok a.
-Proof. apply uop_range. lia. Qed.
-
-Theorem rs_full_multiplication_eq : forall b x y, u64_ok x -> u64_ok y ->
-  rs_full_multiplication b x y = Ok (full_multiplication x y).
-Proof.
-  intros b x y Hx Hy. unfold rs_full_multiplication, full_multiplication, u128_mul, u128_shr, as_u128.
-  rewrite !wrapu_small by rng.
-  assert (Hp : 0 <= x * y < 2 ^ 128).
-  { unfold u64_ok in *. change (2 ^ 128) with (2 ^ 64 * 2 ^ 64). nia. }
-  rewrite uop_ok by (apply in_u_n; exact Hp). heads.
-  rewrite shr_u_ok by reflexivity. heads.
-  unfold as_u64 at 2. rewrite wrapu_small; [reflexivity|].
-  split; [apply Z.div_pos; lia|].
-  apply Z.div_lt_upper_bound; [lia|]. change (2 ^ 128) with (2 ^ 64 * 2 ^ 64) in Hp. lia.
-Qed.
-
-(** the table entries are u64 values (by their Rust type) *)
-Definition tables_ok (T : tables) : Prop :=
-  Forall (fun p => u64_ok (fst p) /\ u64_ok (snd p)) (POWER_OF_FIVE_128 T).
-
-Lemma tables_ok_TABLES : tables_ok TABLES.
-Proof.
-  unfold tables_ok. apply Forall_forall. intros p Hp.
-  assert (H : forallb (fun p => (0 <=? fst p) && (fst p <? 2 ^ 64) && (0 <=? snd p) && (snd p <? 2 ^ 64))
-            (POWER_OF_FIVE_128 TABLES) = true) by (vm_compute; reflexivity).
-  rewrite forallb_forall in H. specialize (H p Hp). unfold u64_ok. lia.
-Qed.
-
-Lemma index_checked2_Forall (P : Z * Z -> Prop) l i a :
-  Forall P l -> index_checked2 l i = Ok a -> P a.
-Proof.
-  unfold index_checked2. intros HF. destruct (_ && _) eqn:E; [|discriminate]. intros [= <-].
-  rewrite Forall_forall in HF. apply HF. apply nth_In. lia.
-Qed.
-
-Lemma full_mul_range x y : u64_ok x -> u64_ok y ->
-  u64_ok (fst (full_multiplication x y)) /\ u64_ok (snd (full_multiplication x y)).
-Proof.
-  unfold u64_ok, full_multiplication; cbn [fst snd]. intros Hx Hy. split.
-  - apply Z.mod_pos_bound. lia.
-  - split; [apply Z.div_pos; nia|]. apply Z.div_lt_upper_bound; [lia|]. nia.
-Qed.
-
-Theorem rs_compute_product_approx_eq : forall T b q w p, tables_ok T -> u64_ok w ->
-  rs_compute_product_approx T b q w p = compute_product_approx T b q w p.
-Proof.
-  intros T b q w p HT Hw. unfold rs_compute_product_approx, compute_product_approx.
-  repeat step.
-  match goal with H : index_checked2 _ _ = Ok ?a |- _ =>
-    pose proof (index_checked2_Forall _ _ _ _ HT H) as [He1 He2]; destruct a as [e1 e2] end.
-  cbn [fst snd] in He1, He2.
-  rewrite !rs_full_multiplication_eq by assumption. unfold full_multiplication.
-  auto_eq.
-Qed.
-#[export] Hint Rewrite rs_compute_product_approx_eq using assumption : rs_eq.
-
-Lemma bind_inv {A B} (x : outcome A) (g : A -> outcome B) r :
-  bind x g = Ok r -> exists a, x = Ok a /\ g a = Ok r.
-Proof. destruct x; cbn; intros H; try discriminate. eauto. Qed.
-Ltac binv H :=
-  repeat (let a := fresh "v" in let E := fresh "E" in
-          apply bind_inv in H; destruct H as (a & E & H)).
-
-Lemma compute_product_approx_range T b q w p lo hi : tables_ok T -> u64_ok w ->
-  compute_product_approx T b q w p = Ok (lo, hi) -> u64_ok lo /\ u64_ok hi.
-Proof.
-  intros HT Hw H. unfold compute_product_approx in H. binv H.
-  match goal with E : index_checked2 _ _ = Ok ?a |- _ =>
-    pose proof (index_checked2_Forall _ _ _ _ HT E) as [He1 He2]; destruct a as [e1 e2] end.
-  cbn [fst snd] in He1, He2.
-  pose proof (full_mul_range w e1 Hw He1) as [R1 R2].
-  pose proof (full_mul_range w e2 Hw He2) as [R3 R4].
-  unfold full_multiplication in *. cbn [fst snd] in *.
-  destruct (_ =? _).
-  - binv H. injection H as <- <-. split.
-    + unfold u64_wrapping_add, wrapu, u64_ok. apply Z.mod_pos_bound. lia.
-    + match goal with E : (if ?c then _ else _) = Ok _ |- _ => destruct c;
-        [eapply u64_add_range; exact E | injection E as <-; assumption] end.
-  - injection H as <- <-. split; assumption.
-Qed.
-
-Theorem rs_compute_error_scaled_eq : forall f b q w lz, u64_ok w ->
-  rs_compute_error_scaled f b q w lz = compute_error_scaled f b q w lz.
-Proof.
-  intros f b q w lz Hw. unfold rs_compute_error_scaled, compute_error_scaled. simp. auto_eq.
-Qed.
-
-Theorem rs_compute_error_eq : forall T f b q w, tables_ok T -> fmt_ok f -> u64_ok w ->
-  rs_compute_error T f b q w = compute_error T f b q w.
-Proof.
-  intros T f b q w HT Hf Hw. unfold rs_compute_error, compute_error.
-  pose proof (lz64_range w Hw). simp. step.
-  pose proof (u64_shl_range _ _ _ _ H0) as Ha.
-  step_with ltac:(apply rs_compute_product_approx_eq; assumption).
-  destruct a0 as [lo hi].
-  destruct (compute_product_approx_range _ _ _ _ _ _ _ HT Ha H1) as [Hlo Hhi].
-  step_with ltac:(apply rs_compute_error_scaled_eq; assumption). reflexivity.
-Qed.
-
-Lemma if_join {A} (c1 c2 : bool) (X R X' R' : A) :
-  X = X' -> R = R' -> (if c1 then if c2 then X else R else R) = (if c1 && c2 then X' else R').
-Proof. intros -> ->. destruct c1, c2; reflexivity. Qed.
-
-Ltac crunch := simp; repeat first [ step | progress simp | case_head; cbn [andb negb] ]; try reflexivity.
-
-Theorem rs_compute_float_eq : forall T f b q w, tables_ok T -> fmt_ok f -> u64_ok w ->
-  rs_compute_float T f b q w = compute_float T f b q w.
-Proof.
-  intros T f b q w HT Hf Hw. unfold rs_compute_float, compute_float, fp_zero, fp_inf.
-  change 18446744073709551615 with u64_max.
-  pose proof (lz64_range w Hw).
-  case_head; [reflexivity|]. case_head; [reflexivity|].
-  simp. step.
-  pose proof (u64_shl_range _ _ _ _ H0) as Ha.
-  step_with ltac:(apply rs_compute_product_approx_eq; assumption).
-  destruct a0 as [lo hi].
-  destruct (compute_product_approx_range _ _ _ _ _ _ _ HT Ha H1) as [Hlo Hhi].
-  record_norm. apply if_join.
-  - step_with ltac:(apply rs_compute_error_scaled_eq; assumption). reflexivity.
-  - crunch.
-Qed.
-
-Theorem rs_lemire_eq : forall T f b n, tables_ok T -> fmt_ok f -> u64_ok (nmant n) ->
-  rs_lemire T f b n = lemire T f b n.
-Proof.
-  intros T f b n HT Hf Hn. unfold rs_lemire, lemire, ext_derived_eqb, ext_eqb.
-  step_with ltac:(apply rs_compute_float_eq; assumption).
-  case_head; [|reflexivity].
-  step. pose proof (u64_add_range _ _ _ _ H0).
-  step_with ltac:(apply rs_compute_float_eq; assumption).
-  case_head; [|reflexivity].
-  step_with ltac:(apply rs_compute_error_eq; assumption). reflexivity.
-Qed.
-
-(** ** The hypotheses hold for the crate's formats and tables *)
-Lemma fmt_ok_std f : f = F32 \/ f = F64 -> fmt_ok f.
-Proof. intros [-> | ->]; [apply fmt_ok_F32 | apply fmt_ok_F64]. Qed.
-
-Corollary rs_round_eq_std : forall f b fp cb, f = F32 \/ f = F64 ->
-  rs_round f b fp cb = round f b fp cb.
-Proof. intros. apply rs_round_eq, fmt_ok_std. assumption. Qed.
-
-Corollary rs_compute_float_eq_std : forall f b q w, f = F32 \/ f = F64 -> u64_ok w ->
-  rs_compute_float TABLES f b q w = compute_float TABLES f b q w.
-Proof. intros. apply rs_compute_float_eq; auto using tables_ok_TABLES, fmt_ok_std. Qed.
-
-Corollary rs_lemire_eq_std : forall f b n, f = F32 \/ f = F64 -> u64_ok (nmant n) ->
-  rs_lemire TABLES f b n = lemire TABLES f b n.
-Proof. intros. apply rs_lemire_eq; auto using tables_ok_TABLES, fmt_ok_std. Qed.
-
-(** the hypotheses are satisfiable on a non-trivial instance, and both sides compute *)
-Example rs_lemire_example :
-  u64_ok (nmant (mkNumber (-5) 123456789 true)) /\
-  rs_lemire TABLES F64 checked_build (mkNumber (-5) 123456789 true)
-    = lemire TABLES F64 checked_build (mkNumber (-5) 123456789 true) /\
-  is_ok (rs_lemire TABLES F64 checked_build (mkNumber (-5) 123456789 true)) = true.
-Proof. split; [unfold u64_ok; cbn; lia|]. split; vm_compute; reflexivity. Qed.
-
-Print Assumptions rs_nth_bit_eq.
-Print Assumptions rs_lower_n_mask_eq.
-Print Assumptions rs_lower_n_halfway_eq.
-Print Assumptions rs_is_denormal_eq.
-Print Assumptions rs_exponent_eq.
-Print Assumptions rs_mantissa_eq.
-Print Assumptions rs_extended_to_float_eq.
-Print Assumptions rs_round_nearest_tie_even_eq.
-Print Assumptions rs_round_down_eq.
-Print Assumptions rs_round_eq.
-Print Assumptions rs_is_fast_path_eq.
-Print Assumptions rs_try_fast_path_eq.
-Print Assumptions rs_power_eq.
-Print Assumptions rs_full_multiplication_eq.
-Print Assumptions rs_compute_product_approx_eq.
-Print Assumptions rs_compute_error_scaled_eq.
-Print Assumptions rs_compute_error_eq.
-Print Assumptions rs_compute_float_eq.
-Print Assumptions rs_lemire_eq.
-Print Assumptions rs_lemire_eq_std.
+(** * SrcEquiv: umbrella re-exporting the per-module equivalence files (kept for compatibility).
+    The theorems [rs_<name>_eq] (regenerated Gallina translation of the Rust source = hand-written
+    model) live in SrcEqMask / SrcEqNum / SrcEqRounding / SrcEqNumber / SrcEqLemire, one file per
+    Rust module, so that a change to one module only invalidates the tie of the properties that
+    pin that module. *)
+From ML Require Export proofs.SrcEqBase proofs.SrcEqMask proofs.SrcEqNum proofs.SrcEqRounding proofs.SrcEqNumber proofs.SrcEqLemire.
